@@ -400,6 +400,14 @@ def gen_history(rng, t, n_cmds, p_invalid=0.0, p_child=0.0, p_copy=0.0, top_only
                     c[3][2] = cur
             except Exception:
                 pass
+        elif c is not None and c[0] == "set" and k in ("vec", "list") and isinstance(c[3], list) and c[3][0] == "val" \
+                and ty[1][0] == "uint" and 0 <= c[2] < ln and rng.random() < 0.2:
+            # re-assign what the slot holds already (through a child view older than its parent's slot this still
+            # writes the child's whole content back)
+            try:
+                c[3][1] = int(x[c[2]])
+            except Exception:
+                pass
         if c is None:
             continue
         cmds.append(c)
